@@ -238,6 +238,10 @@ where
     #[inline]
     pub fn add_state(&mut self, column: &H::TracebackColumn, states: &mut [State<T, D>]) {
         self.pos = self.positions.next().unwrap();
+        #[cfg(feature = "verif-hooks")]
+        if self.pos == 0 {
+            crate::verif::hit("myers_tb.ring_wrap");
+        }
         self.handler.add_state(column, self.pos, states);
     }
 
